@@ -148,11 +148,14 @@ type Server struct {
 	MaxCalls int
 	// OnChanDiff, if set, is called before a getChannelDifference call is answered.
 	OnChanDiff func(ch int64)
+	// OnAnswer, if set, is called with every difference answer.
+	OnAnswer func(a Answer)
 }
 
 // Answer records one difference answer.
 type Answer struct {
 	Seq     string // SeqPts (covers qts too) or channel sequence
+	Chan    int64  // channel id for channel answers
 	Type    string
 	Pts     int
 	Qts     int
@@ -207,6 +210,13 @@ func (s *Server) call(m string) error {
 	return nil
 }
 
+func (s *Server) answer(a Answer) {
+	s.Answered = append(s.Answered, a)
+	if s.OnAnswer != nil {
+		s.OnAnswer(a)
+	}
+}
+
 func (s *Server) cover(seq string, p int) {
 	if p > s.Covered[seq] {
 		s.Covered[seq] = p
@@ -231,12 +241,12 @@ func (s *Server) UpdatesGetDifference(ctx context.Context, req *tg.UpdatesGetDif
 	}
 	ptsEnd, qtsEnd := s.End(SeqPts), s.End(SeqQts)
 	if len(todo) == 0 {
-		s.Answered = append(s.Answered, Answer{Seq: SeqPts, Type: "differenceEmpty", Pts: req.Pts, Qts: req.Qts})
+		s.answer(Answer{Seq: SeqPts, Type: "differenceEmpty", Pts: req.Pts, Qts: req.Qts})
 		return &tg.UpdatesDifferenceEmpty{Date: s.date(), Seq: s.seqNo()}, nil
 	}
 	if s.Cfg.TooLong > 0 && behind >= s.Cfg.TooLong {
 		s.cover(SeqPts, ptsEnd)
-		s.Answered = append(s.Answered, Answer{Seq: SeqPts, Type: "differenceTooLong", Pts: ptsEnd, Qts: req.Qts})
+		s.answer(Answer{Seq: SeqPts, Type: "differenceTooLong", Pts: ptsEnd, Qts: req.Qts})
 		return &tg.UpdatesDifferenceTooLong{Pts: ptsEnd}, nil
 	}
 	sliced := false
@@ -287,10 +297,10 @@ func (s *Server) UpdatesGetDifference(ctx context.Context, req *tg.UpdatesGetDif
 	s.cover(SeqPts, statePts)
 	s.cover(SeqQts, stateQts)
 	if sliced {
-		s.Answered = append(s.Answered, Answer{Seq: SeqPts, Type: "differenceSlice", Pts: statePts, Qts: stateQts, Entries: ids})
+		s.answer(Answer{Seq: SeqPts, Type: "differenceSlice", Pts: statePts, Qts: stateQts, Entries: ids})
 		return &tg.UpdatesDifferenceSlice{NewMessages: msgs, NewEncryptedMessages: enc, OtherUpdates: others, IntermediateState: state}, nil
 	}
-	s.Answered = append(s.Answered, Answer{Seq: SeqPts, Type: "difference", Pts: statePts, Qts: stateQts, Entries: ids})
+	s.answer(Answer{Seq: SeqPts, Type: "difference", Pts: statePts, Qts: stateQts, Entries: ids})
 	return &tg.UpdatesDifference{NewMessages: msgs, NewEncryptedMessages: enc, OtherUpdates: others, State: state}, nil
 }
 
@@ -318,12 +328,12 @@ func (s *Server) UpdatesGetChannelDifference(ctx context.Context, req *tg.Update
 		end = req.Pts
 	}
 	if len(todo) == 0 {
-		s.Answered = append(s.Answered, Answer{Seq: seq, Type: "channelDifferenceEmpty", Pts: end})
+		s.answer(Answer{Seq: seq, Chan: in.ChannelID, Type: "channelDifferenceEmpty", Pts: end})
 		return &tg.UpdatesChannelDifferenceEmpty{Final: true, Pts: end}, nil
 	}
 	if s.Cfg.ChanTooLong > 0 && len(todo) >= s.Cfg.ChanTooLong {
 		s.cover(seq, end)
-		s.Answered = append(s.Answered, Answer{Seq: seq, Type: "channelDifferenceTooLong", Pts: end})
+		s.answer(Answer{Seq: seq, Chan: in.ChannelID, Type: "channelDifferenceTooLong", Pts: end})
 		d := &tg.Dialog{Peer: &tg.PeerChannel{ChannelID: in.ChannelID}}
 		d.SetPts(end)
 		return &tg.UpdatesChannelDifferenceTooLong{Final: true, Dialog: d}, nil
@@ -353,7 +363,7 @@ func (s *Server) UpdatesGetChannelDifference(ctx context.Context, req *tg.Update
 		}
 	}
 	s.cover(seq, pts)
-	s.Answered = append(s.Answered, Answer{Seq: seq, Type: fmt.Sprintf("channelDifference(final=%v)", final), Pts: pts, Entries: ids})
+	s.answer(Answer{Seq: seq, Chan: in.ChannelID, Type: fmt.Sprintf("channelDifference(final=%v)", final), Pts: pts, Entries: ids})
 	return &tg.UpdatesChannelDifference{Final: final, Pts: pts, NewMessages: msgs, OtherUpdates: others}, nil
 }
 
